@@ -89,6 +89,15 @@ def gen(ctx, alias_p=0.04):
         case["keep"].extend([shared, first])
         case["limits"]["max_vars"] = max(case["limits"]["max_vars"], 15)
         case["limits"]["max_depth"] = max(case["limits"]["max_depth"], 3)
+    if rng.random() < 0.08:
+        # a watch whose value reaches MANY objects never seen before, then a later watch on one of them
+        shared = objgen.Person("held", 2)
+        big = {"k%d" % i: (shared if i == 7 else [i, str(i)]) for i in range(60)}
+        case["watches"] = list(case["watches"]) + [("settings()", big), ("one_of_them()", shared)]
+        case["keep"].extend([shared, big])
+        case["limits"]["max_vars"] = 1000
+        case["limits"]["max_depth"] = max(case["limits"]["max_depth"], 4)
+        case["limits"]["max_coll"] = max(case["limits"]["max_coll"], 3)
     aliased = False
     if rng.random() < alias_p:
         f = rng.choice(case["frames"])
